@@ -724,6 +724,14 @@ func typeOfFn(x ast.ApplyFn, varRanges map[ast.Variable]ast.BaseTerm, nameTrie s
 				return ast.ApplyFn{symbols.ListType, []ast.BaseTerm{varRanges[v]}}
 			}
 		}
+		if len(x.Args) > 1 {
+			// Several arguments are collected as pairs (two) or tuples (more).
+			if len(x.Args) == 2 {
+				return symbols.NewListType(symbols.NewPairType(
+					boundOfArg(x.Args[0], varRanges, nameTrie), boundOfArg(x.Args[1], varRanges, nameTrie)))
+			}
+			return symbols.NewListType(ast.AnyBound)
+		}
 		elemTpe := boundOfArg(x.Args[0], varRanges, nameTrie)
 		return ast.ApplyFn{symbols.ListType, []ast.BaseTerm{elemTpe}}
 	}
